@@ -11,7 +11,13 @@ from collections import Counter
 from dataclasses import dataclass, field
 from typing import Any
 
-from entity_query_language import symbol
+from entity_query_language import symbol, predicate
+
+
+@predicate
+def f_le(x, n):
+    """gets the flattened element AND another expression over the same element"""
+    return x.n <= n
 
 ID = "C16"
 LEVEL = "exploration"
@@ -48,14 +54,24 @@ class Par:
         return f"Par{self.k}"
 
 
+@symbol
+@dataclass(eq=False)
+class Bag:
+    """an inner collection that is itself an instance of a @symbol class (iterable through __iter__)"""
+    xs: Any = field(default_factory=list)
+
+    def __iter__(self):
+        return iter(self.xs)
+
+
 def plan(tier, seed):
     n = 250 if tier == "quick" else 3000
     return [{"n": n, "sub": i} for i in range(16)]
 
 
 def floors(tier):
-    return {"distinct_nontrivial": 400, "cls:sel:elem": 500, "cls:sel:parent_elem": 500, "cls:sel:elem_parent": 300, "cls:sel:parent": 300, "cls:primitive_elements": 300,
-            "cls:cond:elem_then_parent_or": 150, "cls:cond:elem_then_parent_notand": 150,
+    return {"distinct_nontrivial": 400, "cls:sel:elem": 500, "cls:sel:parent_elem": 500, "cls:sel:elem_parent": 300, "cls:sel:parent": 300, "cls:primitive_elements": 300, "cls:inner_collection_is_a_symbol_instance": 200,
+            "cls:cond:elem_then_parent_or": 150, "cls:cond:parent_then_pred_pair": 100, "cls:cond:elem_then_parent_notand": 150,
             "cls:cond:none": 200, "cls:cond:elem": 200, "cls:cond:parent": 200, "cls:cond:both": 200, "cls:cond:join": 200, "cls:cond:join3": 200, "cls:cond:elem_or": 200, "cls:cond:elem_stacked": 200, "cls:cond:elem_and": 200, "cls:cond:elem_not": 200,
             "cls:scalar": 200, "cls:plain_scalar_value": 60, "cls:reevaluated_after_inner_lists_changed": 150, "cls:has_empty_list": 500, "cls:has_repeated_element": 500, "re:Flatten(@.*)?\\.enter": 2000}
 
@@ -85,9 +101,10 @@ def gen_case(rng):
                                     "elem_then_parent_or"]),
                 "cond_order": [0, 1, 2], "thr": rng.randint(1, 4), "kthr": rng.randint(0, 3), "thr2": rng.randint(1, 5),
                 "scalar": False, "caching": rng.random() < 0.7}
-    return {"world": gen_world(rng), "sel": rng.choice(["elem", "parent_elem", "parent_elem", "elem_parent", "parent"]),
+    return {"world": gen_world(rng), "bag": rng.random() < 0.1,
+            "sel": rng.choice(["elem", "parent_elem", "parent_elem", "elem_parent", "parent"]),
             "cond": rng.choice(["none", "elem", "parent", "both", "join", "join3", "elem_or", "elem_stacked", "elem_and", "elem_not",
-                                "elem_then_parent_or", "elem_then_parent_notand"]),
+                                "elem_then_parent_or", "elem_then_parent_notand", "parent_then_pred_pair"]),
             "cond_order": rng.choice([[0, 1, 2], [2, 1, 0], [1, 0, 2], [2, 0, 1]]),
             "thr": rng.randint(1, 4), "kthr": rng.randint(0, 3), "thr2": rng.randint(1, 5),
             "scalar": rng.random() < 0.15, "caching": rng.random() < 0.7}
@@ -110,8 +127,10 @@ def cases(spec, ctx):
 PRIMS = [-2, -1, 1, 2, 3]      # value of element i in a 'prim' world; E(i+1).n - 3 skips 0 (falsy values: C19)
 
 
-def build_world(w, prim=False):
+def build_world(w, prim=False, bag=False):
     es = [E(i + 1) for i in range(5)]
+    if bag:
+        return es, [Par(p["k"], Bag([es[i] for i in p["items"]]), es[p["one"]]) for p in w["parents"]]
     if prim:
         return es, [Par(p["k"], [PRIMS[i] for i in p["items"]], PRIMS[p["one"]]) for p in w["parents"]]
     ps = [Par(p["k"], [es[i] for i in p["items"]], p["one"][1] if isinstance(p["one"], list) else es[p["one"]]) for p in w["parents"]]
@@ -146,6 +165,9 @@ def expected(case, es, ps):
                 ok = not (x.n > case["thr"] and p.k > case["kthr"])
             if c in ("parent", "both") and not p.k > case["kthr"]:
                 ok = False
+            if c == "parent_then_pred_pair":
+                # p.k > kthr, f_le(e, e.n): both arguments of the predicate are the SAME element's, so it holds for every element
+                ok = p.k > case["kthr"] and x.n <= x.n
             if c == "elem_then_parent_or":
                 ok = x.n > case["thr"] and (p.k == case["kthr"] or p.k > t2 - 1)
             if c == "elem_then_parent_notand":
@@ -213,6 +235,8 @@ def build_query(case, es, ps):
             conds.append(and_(le(case["thr"] + 1), ge(t2)) if sw else and_(ge(t2), le(case["thr"] + 1)))
         if c == "elem_not":
             conds.append(not_(and_(gt(case["thr"]), p.k > case["kthr"])))
+        if c == "parent_then_pred_pair":
+            conds += [p.k > case["kthr"], f_le(e, e.n)]
         if c == "elem_then_parent_or":
             conds += [gt(case["thr"]), or_(p.k == case["kthr"], p.k > t2 - 1)]
         if c == "elem_then_parent_notand":
@@ -280,14 +304,16 @@ def run(case, es, ps, caching, times=1):
 
 
 def run_for_c05(case, caching, times):
-    es, ps = build_world(case["world"], case.get("prim", False))
+    es, ps = build_world(case["world"], case.get("prim", False), case.get("bag", False))
     return run(case, es, ps, caching, times), expected(case, es, ps), False
 
 
 def check_case(case, ctx):
-    es, ps = build_world(case["world"], case.get("prim", False))
+    es, ps = build_world(case["world"], case.get("prim", False), case.get("bag", False))
     if case.get("prim"):
         ctx.cls("cls:primitive_elements")
+    if case.get("bag"):
+        ctx.cls("cls:inner_collection_is_a_symbol_instance")
     exp = expected(case, es, ps)
     ctx.cls("cls:sel:" + case["sel"])
     ctx.cls("cls:cond:" + case["cond"])
@@ -314,7 +340,7 @@ def check_case(case, ctx):
     # both, C02 says an identical row is not returned twice; the statement's quantifier does not mention such lists, so
     # for them the multiplicity may be anything between "once per distinct (parent, element)" and "once per occurrence".
     upper = Counter(exp)
-    lower = Counter(expected(case, es, [Par(p.k, list(dict.fromkeys(p.items)), p.one) for p in ps]))
+    lower = Counter(expected(case, es, [Par(p.k, list(dict.fromkeys(p.items)), p.one) for p in ps]))   # (a Bag iterates like its list)
     g = Counter(got)
     if case["cond"] == "join3":
         # two joined variables are not selected: how often a (parent, element) row repeats is not specified, the row set is
@@ -327,7 +353,7 @@ def check_case(case, ctx):
                         "n_observed": len(got)})
     elif upper != lower and g != upper:
         ctx.count("repeated_element_in_one_list_collapsed")
-    if case["cond"] == "none" and not case["scalar"] and not case.get("prim") and not (miss or extra):
+    if case["cond"] == "none" and not case["scalar"] and not case.get("prim") and not case.get("bag") and not (miss or extra):
         # a query without conditions holds no cached truth values: evaluated again after the inner collections changed,
         # the same query object unnests the collections as they are now
         ctx.cls("cls:reevaluated_after_inner_lists_changed")
